@@ -247,7 +247,7 @@ def check_doc(ctx, doc, subtrees):
                             orc = "brackets_in_call_argument_roundtrip"
                     out.append((orc, {"what": what, "wikitext": ws, "reparsed": got}, want))
         # plain strings with literal double brackets passed directly (API accepts str)
-        for s in ("see [[a]] here", "x ]] y [[ z"):
+        for s in ("see [[a]] here", "x ]] y [[ z", "t [[[a]]] u", "[[[[a]]]]", "a]]]b[[[c"):
             ws = ctx.node_to_wikitext(s)
             ctx.start_page("Tt")
             ts = ctx.parse(ws)
